@@ -60,6 +60,22 @@ def run_one(patch: str, tier: str = "quick") -> tuple[bool, str, float]:
     return caught, detail, time.time() - t0
 
 
+def record(name: str, caught: bool, dt: float, detail: str) -> None:
+    """selftest/sensitivity_last.txt: one line per mutant, the most recent outcome (committed with the machinery)."""
+    path = os.path.join(VERIF, "selftest", "sensitivity_last.txt")
+    rows: dict[str, str] = {}
+    if os.path.exists(path):
+        with open(path) as f:
+            for ln in f:
+                if " " in ln:
+                    rows[ln.split(" ", 2)[1]] = ln.rstrip("\n")
+    sig = [x.strip() for x in detail.split("|") if x.strip().startswith("C")][:2]
+    rows[name] = f"{'CAUGHT' if caught else 'MISSED'} {name} {dt:.0f}s {' ; '.join(sig)}"
+    with open(path, "w") as f:
+        for k in sorted(rows):
+            f.write(rows[k] + "\n")
+
+
 def main(argv: list[str]) -> int:
     patches = sorted(glob.glob(os.path.join(VERIF, "selftest", "mutants", "*.patch")))
     if argv:
@@ -73,6 +89,7 @@ def main(argv: list[str]) -> int:
             missed += 1
             continue
         print(f"{'CAUGHT' if caught else 'MISSED'} {os.path.basename(p)} ({dt:.0f}s) {detail[:400]}", flush=True)
+        record(os.path.basename(p), caught, dt, detail)
         if not caught:
             missed += 1
     print(f"sensitivity: {len(patches) - missed}/{len(patches)} mutants caught")
